@@ -163,7 +163,8 @@ impl<T> Raw<T> {
                 let mut res = None;
                 while let Some(is_right_field) = map.next_key_seed(Field(self.field_name))? {
                     if is_right_field {
-                        res = Some(map.next_value()?);
+                        // A field that is `null` is treated like a missing field.
+                        res = map.next_value::<Option<T>>()?;
                     } else {
                         map.next_value::<IgnoredAny>()?;
                     }
